@@ -190,6 +190,25 @@ int main(int argc, char **argv) {
                   if (isValidCell(h)) ev_dist_classes(h, K, quick ? 2 : 4);
               }
           } }
+        /* the reverse unfolding tables of localIjkToCell, entry by (direction, leading digit): origins in every base cell next to a
+           pentagon base cell and inside it with every leading digit; every IJ coordinate of a box that covers the pentagon's
+           base cell and its neighbours */
+        { H3Index p0[12]; getPentagons(0, p0); uint64_t sd = strtoull(argv[3], 0, 10);
+          for (int res = 1; res <= 3; res++) for (int pi = 0; pi < 12; pi++) {
+              int bc = getBaseCellNumber(p0[pi]); int polar = bc == 4 || bc == 117;
+              if (res == 3 && quick && !polar && (pi + sd) % 5) continue;
+              int R = res == 1 ? 8 : res == 2 ? 14 : 24;
+              H3Index nb[7] = {0}; gridDisk(p0[pi], 1, nb);
+              for (int q = 0; q < 7 + 5; q++) {
+                  uint64_t h = ((uint64_t)1 << 59) | ((uint64_t)res << 52);
+                  if (q < 7) { if (!nb[q] || nb[q] == p0[pi]) continue; h |= (uint64_t)getBaseCellNumber(nb[q]) << 45; for (int r = 1; r <= 15; r++) { uint64_t dg = r > res ? 7 : vt_randn(7); h |= dg << (3 * (15 - r)); } }
+                  else { int lead = q - 7 + 2; h |= (uint64_t)bc << 45; int z = (int)vt_randn(res); for (int r = 1; r <= 15; r++) { uint64_t dg = r > res ? 7 : r <= z ? 0 : r == z + 1 ? (uint64_t)lead : vt_randn(7); h |= dg << (3 * (15 - r)); } }
+                  if (!isValidCell(h)) continue;
+                  CoordIJ c0; if (cellToLocalIj(h, h, 0, &c0)) continue;
+                  int step = (res == 3 && quick) ? 2 : 1;
+                  for (int i = -R; i <= R; i += step) for (int j = -R; j <= R; j += step) ev_ijtocell(h, c0.i + i, c0.j + j);
+              }
+          } }
         for (int res = 0; res <= 15; res++) {
             CellVec cv = {0};
             cv_pentagon_strata(&cv, res, quick ? 1 : 2); cv_random_cells(&cv, res, quick ? 6 : 30); if (res >= 2) cv_seam_cells(&cv, res, quick ? 1 : 3); cv_sparse_digit_sample(&cv, res, quick ? 4 : 30);
